@@ -54,15 +54,24 @@ def untypedWitness : FileP :=
       (.cons (.mk (str "N") [] [] .nil [] [] [] [] [] false false {}) .nil) }
 
 /- FULL STATEMENT `newFile_toProto` (false of the current code):
-   `∀ env p, roundTripShapeOk env p = true` — every descriptor NewFile builds is reproduced by NewFile∘ToProto. -/
+   `∀ env p, roundTripShapeOk env p = true` — every descriptor NewFile builds is reproduced by NewFile∘ToProto.
+   Still refuted by the two editions spellings protoc refuses and `NewFile` accepts (TYPE_GROUP / LABEL_REQUIRED
+   without the feature): `ToProto` rewrites them to MESSAGE / OPTIONAL and the information is gone. -/
 set_option maxRecDepth 20000 in
 theorem newFile_toProto_false : ¬ ∀ env p, roundTripShapeOk env p = true := by
   intro h
-  exact absurd (h {} untypedWitness) (by decide)
+  exact absurd (h {} groupWitness) (by decide)
 
 set_option maxRecDepth 20000 in
-/-- the two other witnesses (protoc would refuse these spellings; `NewFile` accepts them and `ToProto` rewrites them) -/
 theorem newFile_toProto_false' : roundTripShapeOk {} groupWitness = false ∧ roundTripShapeOk {} requiredWitness = false := by
+  decide
+
+set_option maxRecDepth 20000 in
+/-- Regression example (witness of the finding repaired by c4513e1): the untyped message field under inherited
+DELIMITED is now built with Kind group (`kGroup`) at once and round-trips. -/
+theorem regress_untypedWitness :
+    roundTripShapeOk {} untypedWitness = true ∧
+    (match newFile {} untypedWitness with | .ok d => shape d | .error _ => []) = [[(kGroup, cOptional)], []] := by
   decide
 
 /-! ### toProto of a built field, clause by clause (for ALL fields) -/
@@ -134,15 +143,17 @@ theorem toProto_buildField_partial (c : Ctx) (par : GoFeatures) (scope : Str) (m
     · simp [kGroup]
     · omega
   obtain ⟨htk, hrefs⟩ := findTarget_ok c k0 _ t hft hk0ne
+  have ht0 : (p.type == 0) = false := by simp; omega
   have hkind : (buildField c par scope me n i p).kind =
       (if t.kind == kGroup && ((match t.messageT with | some m => m.isMapEntry | none => false) || me) then kMessage else t.kind) := by
-    simp only [buildField, hk0, hft] <;> rfl
+    simp only [buildField, hk0, hft, ht0, Bool.false_and, Bool.false_eq_true, ↓reduceIte] <;> rfl
   cases p with
   | mk name number label type typeName extendee oneofIndex jsonName p3 defOk defLit packed lazy feats =>
     simp only at *
     generalize hF : fieldFeatures par feats packed = F at *
     generalize hK : (if (t.kind == kGroup && ((match t.messageT with | some m => m.isMapEntry | none => false) || me)) = true then kMessage else t.kind) = K at *
-    simp only [toProtoField, buildField, hk0, hft, hF, FieldP.mk.injEq, FieldD.number, FieldD.name, true_and]
+    simp only [toProtoField, buildField, hk0, hft, hF, ht0, Bool.false_and, Bool.false_eq_true, ↓reduceIte,
+      FieldP.mk.injEq, FieldD.number, FieldD.name, true_and]
     -- the final kind K in terms of the declared type
     have hKtype : (if (syn == 9 && (if (decide (1 ≤ K) && decide (K ≤ 18)) = true then K else 0) == kGroup) = true then kMessage
         else if (decide (1 ≤ K) && decide (K ≤ 18)) = true then K else 0) = type := by
@@ -287,6 +298,248 @@ theorem toProto_header (env : Env) (p : FileP) :
   refine ⟨rfl, rfl, rfl, ?_, ?_⟩
   · simp [toProto, build]
   · intro h; simp [toProto, build, fileEdition, h]
+
+/-! ### the mutual induction over the message tree (any depth) -/
+
+/-- the hypotheses of `toProto_buildField_partial` for one field in its context, at every index -/
+structure FieldCanon (c : Ctx) (syn : Nat) (par : GoFeatures) (scope : Str) (me : Bool) (n : Nat) (p : FieldP) : Prop where
+  resolved : ∀ i, (buildField c par scope me n i p).resolveErr = none
+  numbered : p.number.isSome = true
+  labelled : p.label.isSome = true
+  typed : 1 ≤ p.type ∧ p.type ≤ 18
+  typeName : p.typeName ≠ some []
+  noExtendee : p.extendee = none
+  defaultLit : p.defaultOk = none → p.defaultLit = []
+  p3 : p.proto3Optional = true → syn = 3
+  legacyRequired : (fieldFeatures par p.features p.packed).isLegacyRequired = true → syn = 9 ∧ p.label = some cOptional
+  noRequiredLabel : syn = 9 → p.label ≠ some cRequired
+  delimited : (fieldFeatures par p.features p.packed).isDelimitedEncoded = true → syn = 9
+  group : p.type = kGroup → syn ≠ 9 ∧ ∀ i, (buildField c par scope me n i p).kind = kGroup
+
+def EnumCanon (e : EnumP) : Prop := ∀ v ∈ e.values, v.number.isSome = true
+
+mutual
+/-- canonical message (no extensions declared inside): every field canonical in its context, recursively -/
+def MsgCanon (c : Ctx) (syn : Nat) (par : GoFeatures) (scope : Str) : MessageP → Prop
+  | .mk name fields oneofs nested enums exts _ _ _ me _ feat =>
+    (∀ q ∈ fields, FieldCanon c syn (mergeGo par feat) (fullAppend scope name) me oneofs.length q) ∧
+    (∀ e ∈ enums, EnumCanon e) ∧ exts = [] ∧
+    MsgsCanon c syn (mergeGo par feat) (fullAppend scope name) nested
+def MsgsCanon (c : Ctx) (syn : Nat) (par : GoFeatures) (scope : Str) : MessagePList → Prop
+  | .nil => True
+  | .cons m ms => MsgCanon c syn par scope m ∧ MsgsCanon c syn par scope ms
+end
+
+theorem map_toProtoEnum (par : GoFeatures) (scope : Str) (es : List EnumP) (h : ∀ e ∈ es, EnumCanon e) :
+    (es.map (buildEnum par scope)).map toProtoEnum = es := by
+  induction es with
+  | nil => rfl
+  | cons e rest ih =>
+    simp only [List.map_cons, List.cons.injEq]
+    exact ⟨toProto_buildEnum par scope e (h e (by simp)), ih (fun x hx => h x (by simp [hx]))⟩
+
+mutual
+theorem toProto_buildMsg (c : Ctx) (syn : Nat) (par : GoFeatures) (scope : Str) :
+    (m : MessageP) → MsgCanon c syn par scope m → toProtoMsg syn (buildMsg c par scope m) = m
+  | .mk name fields oneofs nested enums exts xr rr rn me ms feat, h => by
+    simp only [MsgCanon] at h
+    obtain ⟨hf, he, hx, hn⟩ := h
+    subst hx
+    simp only [buildMsg, toProtoMsg, MessageP.name, MessageP.extRanges, MessageP.resRanges, MessageP.resNames,
+      MessageP.mapEntry, MessageP.messageSet, MessageP.features, buildExts, List.map_nil, MessageP.mk.injEq, true_and,
+      and_true]
+    refine ⟨?_, toProto_buildOneofs _ _ _ _, toProto_buildMsgs c syn _ _ nested hn, map_toProtoEnum _ _ _ he⟩
+    apply toProto_buildFields_partial
+    intro q hq i
+    have hc := hf q hq
+    exact toProto_buildField_partial c _ _ me oneofs.length i q syn (hc.resolved i) hc.numbered hc.labelled hc.typed
+      hc.typeName hc.noExtendee hc.defaultLit hc.p3 hc.legacyRequired hc.noRequiredLabel hc.delimited
+      (fun hg => ⟨(hc.group hg).1, (hc.group hg).2 i⟩)
+theorem toProto_buildMsgs (c : Ctx) (syn : Nat) (par : GoFeatures) (scope : Str) :
+    (ms : MessagePList) → MsgsCanon c syn par scope ms → toProtoMsgs syn (buildMsgs c par scope ms) = ms
+  | .nil, _ => rfl
+  | .cons m rest, h => by
+    simp only [MsgsCanon] at h
+    simp only [buildMsgs, toProtoMsgs, MessagePList.cons.injEq]
+    exact ⟨toProto_buildMsg c syn par scope m h.1, toProto_buildMsgs c syn par scope rest h.2⟩
+end
+
+/-! ### from `newFile … = ok` to the file-level round trip -/
+
+/-- pure canonicity of a field proto in its context — what `protoc` emits; the remaining hypotheses of
+`toProto_buildField_partial` (`resolveErr = none`, no extendee, proto3_optional only in proto3) follow from
+`newFile … = ok`. -/
+structure FieldCanonP (c : Ctx) (syn : Nat) (par : GoFeatures) (scope : Str) (me : Bool) (n : Nat) (p : FieldP) : Prop where
+  numbered : p.number.isSome = true
+  labelled : p.label.isSome = true
+  typed : 1 ≤ p.type ∧ p.type ≤ 18
+  typeName : p.typeName ≠ some []
+  defaultLit : p.defaultOk = none → p.defaultLit = []
+  legacyRequired : (fieldFeatures par p.features p.packed).isLegacyRequired = true → syn = 9 ∧ p.label = some cOptional
+  noRequiredLabel : syn = 9 → p.label ≠ some cRequired
+  delimited : (fieldFeatures par p.features p.packed).isDelimitedEncoded = true → syn = 9
+  group : p.type = kGroup → syn ≠ 9 ∧ ∀ i, (buildField c par scope me n i p).kind = kGroup
+
+mutual
+def MsgCanonP (c : Ctx) (syn : Nat) (par : GoFeatures) (scope : Str) : MessageP → Prop
+  | .mk name fields oneofs nested enums exts _ _ _ me _ feat =>
+    (∀ q ∈ fields, FieldCanonP c syn (mergeGo par feat) (fullAppend scope name) me oneofs.length q) ∧
+    (∀ e ∈ enums, EnumCanon e) ∧ exts = [] ∧
+    MsgsCanonP c syn (mergeGo par feat) (fullAppend scope name) nested
+def MsgsCanonP (c : Ctx) (syn : Nat) (par : GoFeatures) (scope : Str) : MessagePList → Prop
+  | .nil => True
+  | .cons m ms => MsgCanonP c syn par scope m ∧ MsgsCanonP c syn par scope ms
+end
+
+theorem mem_buildFields (c : Ctx) (par : GoFeatures) (scope : Str) (me : Bool) (n : Nat) (ps : List FieldP) (i : Nat)
+    (d : FieldD) (h : d ∈ buildFields c par scope me n i ps) : ∃ p ∈ ps, ∃ j, d = buildField c par scope me n j p := by
+  induction ps generalizing i with
+  | nil => simp [buildFields] at h
+  | cons p rest ih =>
+    simp only [buildFields, List.mem_cons] at h
+    rcases h with h | h
+    · exact ⟨p, by simp, i, h⟩
+    · obtain ⟨q, hq, j, hj⟩ := ih (i + 1) h
+      exact ⟨q, by simp [hq], j, hj⟩
+
+theorem buildFields_map (c : Ctx) (par : GoFeatures) (scope : Str) (me : Bool) (n syn : Nat) (ps : List FieldP) (i0 : Nat)
+    (h : ∀ d ∈ buildFields c par scope me n i0 ps, toProtoField syn d = d.p) :
+    (buildFields c par scope me n i0 ps).map (toProtoField syn) = ps := by
+  induction ps generalizing i0 with
+  | nil => rfl
+  | cons q rest ih =>
+    simp only [buildFields, List.map_cons, List.cons.injEq]
+    refine ⟨?_, ih (i0 + 1) (fun d hd => h d (by simp [buildFields, hd]))⟩
+    have := h (buildField c par scope me n i0 q) (by simp [buildFields])
+    rw [this]; rfl
+
+/-- a built field that resolved and passed `validateField`, with a canonical proto, converts back to its proto -/
+theorem toProto_field_checked (v : VCtx) (c : Ctx) (syn : Nat) (hsyn : v.edition = editionProto3 → syn = 3)
+    (par : GoFeatures) (scope : Str) (me : Bool) (n i : Nat) (q : FieldP) (m : MessageD)
+    (hc : FieldCanonP c syn par scope me n q)
+    (hres : (buildField c par scope me n i q).resolveErr = none)
+    (hval : validateField v m (buildField c par scope me n i q) = .ok ()) :
+    toProtoField syn (buildField c par scope me n i q) = q := by
+  simp only [validateField, seq_ok_iff, guardV_ok_iff] at hval
+  have hp : (buildField c par scope me n i q).p = q := rfl
+  have hext : q.extendee = none := by
+    have := hval.2.2.2.2.2.1
+    rw [hp] at this
+    cases hq : q.extendee with
+    | none => rfl
+    | some x => rw [hq] at this; cases this
+  have hp3 : q.proto3Optional = true → syn = 3 := by
+    intro h3
+    have := hval.2.2.2.2.2.2.1
+    rw [hp, h3] at this
+    simp only [Bool.true_and, Bool.not_eq_false', beq_iff_eq] at this
+    exact hsyn this
+  exact toProto_buildField_partial c par scope me n i q syn hres hc.numbered hc.labelled hc.typed hc.typeName hext
+    hc.defaultLit hp3 hc.legacyRequired hc.noRequiredLabel hc.delimited (fun hg => ⟨(hc.group hg).1, (hc.group hg).2 i⟩)
+
+mutual
+theorem toProto_buildMsg_checked (v : VCtx) (c : Ctx) (syn : Nat) (hsyn : v.edition = editionProto3 → syn = 3)
+    (par : GoFeatures) (scope : Str) :
+    (m : MessageP) → MsgCanonP c syn par scope m → validateMsg v (buildMsg c par scope m) = .ok () →
+      (∀ e ∈ msgResolveErrs (buildMsg c par scope m), e = none) → toProtoMsg syn (buildMsg c par scope m) = m
+  | .mk name fields oneofs nested enums exts xr rr rn me ms feat, h, hv, hr => by
+    simp only [MsgCanonP] at h
+    obtain ⟨hf, he, hx, hn⟩ := h
+    subst hx
+    simp only [buildMsg, validateMsg, seq_ok_iff, allV_ok_iff] at hv
+    simp only [buildMsg, msgResolveErrs, buildExts, List.map_nil, List.append_nil, List.mem_append, List.mem_map] at hr
+    simp only [buildMsg, toProtoMsg, MessageP.name, MessageP.extRanges, MessageP.resRanges, MessageP.resNames,
+      MessageP.mapEntry, MessageP.messageSet, MessageP.features, buildExts, List.map_nil, MessageP.mk.injEq, true_and,
+      and_true]
+    refine ⟨?_, toProto_buildOneofs _ _ _ _, ?_, map_toProtoEnum _ _ _ he⟩
+    · apply buildFields_map
+      intro d hd
+      obtain ⟨q, hq, j, rfl⟩ := mem_buildFields _ _ _ _ _ _ _ d hd
+      have hres := hr (buildField c (mergeGo par feat) (fullAppend scope name) me oneofs.length j q).resolveErr
+        (Or.inl ⟨_, hd, rfl⟩)
+      exact toProto_field_checked v c syn hsyn _ _ me _ j q _ (hf q hq) hres (hv.2.2.2.2.2.2.2.2.1 _ hd)
+    · exact toProto_buildMsgs_checked v c syn hsyn _ _ nested hn hv.2.2.2.2.2.2.2.2.2.2.2.1
+        (fun e he' => hr e (Or.inr he'))
+theorem toProto_buildMsgs_checked (v : VCtx) (c : Ctx) (syn : Nat) (hsyn : v.edition = editionProto3 → syn = 3)
+    (par : GoFeatures) (scope : Str) :
+    (ms : MessagePList) → MsgsCanonP c syn par scope ms → validateMsgs v (buildMsgs c par scope ms) = .ok () →
+      (∀ e ∈ msgsResolveErrs (buildMsgs c par scope ms), e = none) → toProtoMsgs syn (buildMsgs c par scope ms) = ms
+  | .nil, _, _, _ => rfl
+  | .cons m rest, h, hv, hr => by
+    simp only [MsgsCanonP] at h
+    simp only [buildMsgs, validateMsgs, seq_ok_iff] at hv
+    simp only [buildMsgs, msgsResolveErrs, List.mem_append] at hr
+    simp only [buildMsgs, toProtoMsgs, MessagePList.cons.injEq]
+    exact ⟨toProto_buildMsg_checked v c syn hsyn par scope m h.1 hv.1 (fun e he => hr e (Or.inl he)),
+      toProto_buildMsgs_checked v c syn hsyn par scope rest h.2 hv.2 (fun e he => hr e (Or.inr he))⟩
+end
+
+
+/-- the documented normalisation on the modelled accessors: syntax "proto2" is written as absent; `edition` is only
+written under editions (a canonical proto has every field labelled, numbered and typed, so nothing else changes) -/
+def normalize (p : FileP) : FileP :=
+  { p with syn := if p.syn = 3 then 3 else if p.syn = 9 then 9 else 0, edition := if p.syn = 9 then p.edition else 0 }
+
+/-- canonical file (as `protoc` emits it), restricted to files that declare no extensions and no services -/
+structure FileCanon (env : Env) (p : FileP) : Prop where
+  noExts : p.exts = []
+  noServices : p.services = []
+  enums : ∀ e ∈ p.enums, EnumCanon e
+  editions : p.syn = 9 → p.edition ≠ editionProto3
+  messages : MsgsCanonP (mkCtx env p) p.syn (fileFeatures p) p.pkg p.messages
+
+/-- **toProto_newFile (file level, partial).** For every accepted canonical file without extension and service
+declarations — messages nested to any depth, enums, oneofs, maps, groups, every field kind —
+`ToFileDescriptorProto(NewFile(p))` is `p` up to the documented normalisation. -/
+theorem toProto_newFile_partial (env : Env) (p : FileP) (d : FileD) (h : newFile env p = .ok d) (hc : FileCanon env p) :
+    toProto d = normalize p := by
+  obtain ⟨⟨_, _, hres, hval⟩, rfl⟩ := (newFile_ok_iff env p d).1 h
+  simp only [validateFile, seq_ok_iff] at hval
+  simp only [checkResolve, firstErr_ok_iff] at hres
+  have hsyn : (⟨env, flattenMsgs (build env p).messages, (build env p).edition⟩ : VCtx).edition = editionProto3 → p.syn = 3 := by
+    intro he
+    have he' : fileEdition p = editionProto3 := he
+    unfold fileEdition at he'
+    by_cases h9 : p.syn = 9
+    · simp [h9] at he'; exact absurd he' (hc.editions h9)
+    · have : (p.syn == 9) = false := by simpa using h9
+      rw [this] at he'
+      by_cases h3 : p.syn = 3
+      · exact h3
+      · have : (p.syn == 3) = false := by simpa using h3
+        rw [this] at he'; simp [editionProto2, editionProto3] at he'
+  have hm := toProto_buildMsgs_checked _ (mkCtx env p) p.syn hsyn (fileFeatures p) p.pkg p.messages hc.messages
+    hval.2.1 (fun e he => hres e (by simp [build, he]))
+  have hen := map_toProtoEnum (fileFeatures p) p.pkg p.enums hc.enums
+  cases p with
+  | mk path pkg syn edition features messages enums exts services =>
+    have hx := hc.noExts
+    have hs := hc.noServices
+    simp only at hx hs hm hen
+    subst hx; subst hs
+    simp only [toProto, normalize, build, FileP.mk.injEq, List.map_nil, buildExts, true_and, fileEdition]
+    refine ⟨?_, ?_, hm, hen, trivial⟩
+    · by_cases h3 : syn = 3
+      · simp [h3]
+      · by_cases h9 : syn = 9 <;> simp [h3, h9]
+    · by_cases h9 : syn = 9 <;> simp [h9]
+
+/-- `FileCanon` is satisfiable: proto2 `package w; message M { optional int32 x = 1; message N { repeated string s = 2; } }` -/
+def canonExample : FileP :=
+  { path := str "w/canon.proto", pkg := str "w", syn := 2
+    messages := .cons (.mk (str "M") [{ name := str "x", number := some 1, label := some 1, type := 5 }] []
+      (.cons (.mk (str "N") [{ name := str "s", number := some 2, label := some 3, type := 9 }] [] .nil [] [] [] [] [] false false {}) .nil)
+      [] [] [] [] [] false false {}) .nil }
+
+set_option maxRecDepth 20000 in
+example : FileCanon {} canonExample ∧ (newFile {} canonExample).isOk = true := by
+  refine ⟨⟨rfl, rfl, (by intro e he; cases he), (by intro h; cases h), ?_⟩, (by decide)⟩
+  simp only [canonExample, MsgsCanonP, MsgCanonP, and_true, List.mem_singleton, forall_eq, List.not_mem_nil,
+    false_imp_iff, implies_true, true_and]
+  refine ⟨⟨rfl, rfl, (by decide), (by decide), fun _ => rfl, fun h => absurd h (by decide), fun h => (by cases h),
+      fun h => absurd h (by decide), fun h => (by cases h)⟩,
+    ⟨rfl, rfl, (by decide), (by decide), fun _ => rfl, fun h => absurd h (by decide), fun h => (by cases h),
+      fun h => absurd h (by decide), fun h => (by cases h)⟩⟩
 
 /-! ### the hypotheses are satisfiable -/
 
